@@ -242,6 +242,7 @@ def build_cache(spec, env):
     b.failing = set()
     b.payload = {}
     b.pv = {}              # (dependent source, version) -> what its producer computed that content from
+    b.junk = set()         # dependent sources holding content from "an earlier session", not yet refreshed by their producer
     kinds = {nd["id"]: nd["kind"] for nd in spec["nodes"]}
     b.kinds = kinds
 
@@ -255,6 +256,7 @@ def build_cache(spec, env):
                 b.ver[writes] = b.ver.get(writes, 0) + 1
                 b.payload[writes] = ("a", i) + tuple(args)      # what the producer computed this content from
                 b.pv[(writes, b.ver[writes])] = b.payload[writes]
+                b.junk.discard(writes)
                 st = b.stores[writes]
                 st.value, st.mtime = ("s", writes, b.ver[writes]), env.tick()
                 env.rec.add("write", writes, st.value, st.mtime)
@@ -504,6 +506,17 @@ def run_history(spec, hseed, steps, driver, props, mode="prim", stress=False):
                     q("cop update %d %d %d" % (key, value[2], t), "eq", "ok", "cop")
                 stats["writes"] += 1
 
+    # a dependent source may already hold content from an earlier session - OLDER than everything else, so it is out of date
+    # as soon as anything upstream holds a value.  Until its producer has refreshed it, its content is trusted input.
+    # (decided by a generator of its own: the main stream of the history stays what it was)
+    rng2 = random.Random(hseed * 31 + 7)
+    for nd in spec["nodes"]:
+        if nd["kind"] == "dsource" and "fed_by" not in nd and rng2.random() < 0.3:
+            d = nd["id"]
+            b.ver[d] = 1
+            b.stores[d].value, b.stores[d].mtime = ("s", d, 1), env.tick()
+            q("cop update %d 1 %d" % (d, b.stores[d].mtime), "eq", "ok", "cop")
+            b.junk.add(d)
     # initial contents of pure sources
     for nd in spec["nodes"]:
         if nd["kind"] == "source" and rng.random() < 0.9:
@@ -595,7 +608,8 @@ def run_history(spec, hseed, steps, driver, props, mode="prim", stress=False):
                                          "step": desc})
                 for nd in spec["nodes"]:
                     # a dependent source must hold what its producer would write from scratch
-                    if nd["kind"] == "producer" and p3 and b.stores[nd["writes"]].mtime is not None:
+                    if nd["kind"] == "producer" and p3 and b.stores[nd["writes"]].mtime is not None \
+                            and (nd["writes"] not in b.junk or nd["writes"] in ood_before):
                         want = ("a", nd["id"]) + tuple(fs[a] for a in nd["args"])
                         if b.payload.get(nd["writes"]) != want:
                             viol.append({"property": p3, "what": f"dependent source {nd['writes']} holds content produced from "
